@@ -54,6 +54,8 @@ pub enum CancelKey {
 }
 
 pub type CallFn = Arc<dyn Fn(&mut Net) + Send + Sync>;
+/// (salt issued on this connection, salt issued on the actor's previous connection) -> bytes to send
+pub type DynFn = Arc<dyn Fn(Option<[u8; 4]>, Option<[u8; 4]>) -> Vec<u8> + Send + Sync>;
 
 #[derive(Clone)]
 pub enum Step {
@@ -64,6 +66,8 @@ pub enum Step {
     Send { bytes: Vec<u8>, label: String },
     /// answer the MD5 challenge received on this connection (dynamic bytes)
     SendPassword { user: String, password: String },
+    /// bytes computed at run time from the salts seen
+    SendDyn(String, DynFn),
     Wait(Cond),
     Close(CloseKind),
     /// stop reading from the socket (back-pressure)
@@ -91,6 +95,7 @@ impl Step {
             Step::Open => "open".into(),
             Step::Send { label, .. } => format!("send({})", label),
             Step::SendPassword { .. } => "send(password)".into(),
+            Step::SendDyn(l, _) => format!("send-dyn({})", l),
             Step::Wait(c) => format!("wait({:?})", c),
             Step::Close(k) => format!("close({:?})", k),
             Step::StopReading => "stop-reading".into(),
@@ -223,6 +228,7 @@ pub struct ClientRt {
     reader: Option<tokio::task::JoinHandle<()>>,
     writer: Option<tokio::task::JoinHandle<()>>,
     pub stale_key: Option<(i32, i32)>,
+    pub stale_salt: Option<[u8; 4]>,
     pub conn_serial: usize,
     pub stop_reading: Arc<AtomicBool>,
 }
@@ -414,6 +420,10 @@ impl World {
         }
         let k = c.buf.lock().key;
         c.stale_key = k;
+        let sl = c.buf.lock().salt;
+        if sl.is_some() {
+            c.stale_salt = sl;
+        }
         match kind {
             CloseKind::HardDrop => {
                 c.tx = None;
@@ -478,7 +488,7 @@ impl World {
                     }
                     return false;
                 }
-                Step::Send { .. } | Step::SendPassword { .. } | Step::StopReading => {
+                Step::Send { .. } | Step::SendPassword { .. } | Step::SendDyn(..) | Step::StopReading => {
                     if eof || !self.clients[a].open {
                         self.skip_to_reconnect(a);
                         continue;
@@ -601,6 +611,11 @@ impl World {
             Step::SendPassword { user, password } => {
                 let salt = self.clients[actor].buf.lock().salt.unwrap_or([0; 4]);
                 self.client_send(actor, wire::password_message(&wire::md5_password_body(&user, &password, &salt)));
+            }
+            Step::SendDyn(_, f) => {
+                let salt = self.clients[actor].buf.lock().salt;
+                let stale = self.clients[actor].stale_salt;
+                self.client_send(actor, f(salt, stale));
             }
             Step::Wait(_) => {}
             Step::Close(k) => self.client_close(actor, k),
@@ -835,6 +850,7 @@ fn new_client_rt() -> ClientRt {
         reader: None,
         writer: None,
         stale_key: None,
+        stale_salt: None,
         conn_serial: 0,
         stop_reading: Arc::new(AtomicBool::new(false)),
     }
